@@ -9,7 +9,8 @@ package main
 // The handlers of these ports (app/ts-meta/meta/handler.go, app/ts-store/run/handler.go) dispatch with a
 // `switch r.Method { case .. : switch r.URL.Path { case .. } }` inside ServeHTTP: there is no table that
 // reflection or an add-only accessor could return. The route list is therefore taken by WALKING THE
-// REGISTERING CODE of the tree under verification at run time: the Go syntax tree of ServeHTTP is walked and
+// REGISTERING CODE of the tree under verification at run time (unless the hook of selftest/hooks/c19-meta-route-table.diff
+// is in the tree: then the meta port's table is read from the handler through (*meta.Service).VerifHTTPRoutes): the Go syntax tree of ServeHTTP is walked and
 // every (method case, path case) pair is reported together with whether its body goes through WrapHandler.
 // Every construct of ServeHTTP's dispatch that the walker does not understand is reported under "opaque"
 // (the Python side then fails the run: exit 2), and every string literal of the package that looks like a
@@ -36,12 +37,14 @@ import (
 	"io"
 	"os"
 	"path/filepath"
+	"reflect"
 	"sort"
 	"strconv"
 	"strings"
 	"time"
 
 	"github.com/influxdata/influxdb/toml"
+	metasrv "github.com/openGemini/openGemini/app/ts-meta/meta"
 	storerun "github.com/openGemini/openGemini/app/ts-store/run"
 	"github.com/openGemini/openGemini/lib/config"
 	"github.com/openGemini/openGemini/lib/logger"
@@ -232,6 +235,25 @@ func sideRoutesCmd(args []string) int {
 					})
 				}
 			}
+		}
+	}
+	// With the hook selftest/hooks/c19-meta-route-table.diff in the tree (the dispatch is a table and
+	// (*meta.Service).VerifHTTPRoutes returns it) the list comes from the running handler; the syntax tree then only
+	// supplies the probe candidates.
+	if *role == "meta" {
+		if m := reflect.ValueOf(&metasrv.Service{}).MethodByName("VerifHTTPRoutes"); m.IsValid() {
+			res := m.Call(nil)[0]
+			byPat = map[string]*sideRoute{}
+			for i := 0; i < res.Len(); i++ {
+				p := res.Index(i).FieldByName("Path").String()
+				if byPat[p] == nil {
+					byPat[p] = &sideRoute{Pattern: p, Wrapped: true}
+				}
+				byPat[p].Methods = append(byPat[p].Methods, res.Index(i).FieldByName("Method").String())
+			}
+			out.Opaque = nil
+			out.File = "hook (*meta.Service).VerifHTTPRoutes"
+			found = 1
 		}
 	}
 	if found != 1 {
